@@ -36,7 +36,7 @@ Proof.
   - unfold returned. now rewrite Hm.
 Qed.
 
-Lemma step_effect : forall cfg s l s', Inv cfg s -> step cfg s l = Some s' -> s_panic s' = None ->
+Definition effect_of (l : label) (s s' : state) : Prop :=
   match l with
   | LRecv tm m =>
       (forall i, recvd i s' = if Z.eqb i tm then recvd i s ++ [m] else recvd i s)
@@ -52,87 +52,114 @@ Lemma step_effect : forall cfg s l s', Inv cfg s -> step cfg s l = Some s' -> s_
       /\ s_main s = MWait /\ s_main s' = MRet /\ s_wgM s = 0
   | _ => tau_effect s s'
   end.
+
+Ltac tau_wr := apply tau_of_wr; reflexivity.
+
+Lemma step_effect_started : forall cfg s l s', Inv cfg s ->
+  step_started cfg s l = Some s' -> s_panic s' = None -> effect_of l s s'.
+Proof.
+  intros cfg s l s' HI H Hp'.
+  destruct s as [mn wgM rd sn rt wgR ws pn].
+  pose proof (inv_keys _ _ HI) as Hkeys; cbn [s_wr s_rt] in Hkeys.
+  destruct l; cbn [step_started] in H; st_cbn; cbn [effect_of].
+  - discriminate.
+  - destruct rd as [[|f r]| |]; try discriminate. destruct sn; try discriminate. inversion H; subst. tau_wr.
+  - destruct rd as [[|f r]| |]; try discriminate. inversion H; subst. tau_wr.
+  - destruct rd; try discriminate. inversion H; subst. tau_wr.
+  - destruct sn; try discriminate. inversion H; subst. tau_wr.
+  - destruct sn as [|f|id ord pending| | |]; try discriminate.
+    destruct (take_pend ord tm pending) as [[[g|] pending']|]; try discriminate.
+    + destruct rt; try discriminate. inversion H; subst. tau_wr.
+    + inversion H; subst. discriminate.
+  - destruct sn as [|f|id ord [|e pending]| | |]; try discriminate. inversion H; subst. tau_wr.
+  - destruct sn; try discriminate. destruct rd; try discriminate; inversion H; subst; tau_wr.
+  - destruct sn; try discriminate. inversion H; subst. tau_wr.
+  - destruct sn; try discriminate. inversion H; subst. tau_wr.
+  - (* LRouterSpawn *)
+    destruct rt; try discriminate. inversion H; subst; clear H.
+    destruct ws; [|discriminate].
+    split; [|split]; [ intros i | intros i | reflexivity ].
+    + unfold recvd. cbn [s_wr find_writer set_rt set_wgR set_wr].
+      destruct (find_writer i (map new_writer (c_targets cfg))) as [w|] eqn:E; [|reflexivity].
+      apply find_writer_In in E as [E _]. apply in_map_iff in E as (t & <- & _). reflexivity.
+    + unfold finished. cbn [s_wr find_writer set_rt set_wgR set_wr].
+      destruct (find_writer i (map new_writer (c_targets cfg))) as [w|] eqn:E; [|reflexivity].
+      apply find_writer_In in E as [E _]. apply in_map_iff in E as (t & <- & _). reflexivity.
+  - (* LDeliver *)
+    destruct rt as [| |tm m| |]; try discriminate.
+    destruct (find_writer tm ws) as [w|] eqn:Ef; [|inversion H; subst; discriminate].
+    destruct (w_closed w); [inversion H; subst; discriminate|].
+    destruct (w_st w) eqn:Ew; try discriminate. inversion H; subst; clear H.
+    split; [|split]; [ intros i | intros i | reflexivity ].
+    + unfold recvd. cbn [s_wr set_rt set_wr]. rewrite (upd_effect tm _ ws w (w_tm_set_st _) Ef).
+      destruct (Z.eqb_spec i tm) as [->|Hne]; [rewrite Ef; reflexivity | reflexivity].
+    + unfold finished. cbn [s_wr set_rt set_wr]. rewrite (upd_effect tm _ ws w (w_tm_set_st _) Ef).
+      destruct (Z.eqb_spec i tm) as [->|Hne]; [rewrite Ef, Ew; reflexivity | reflexivity].
+  - destruct rt; try discriminate. destruct sn; try discriminate; inversion H; subst; tau_wr.
+  - (* LRouterClose *)
+    destruct rt as [| | |todo|]; try discriminate.
+    destruct (memz tm todo); [|discriminate]. inversion H; subst; clear H.
+    assert (Hfw : forall i, option_map w_got (find_writer i (upd_writer tm w_close ws)) = option_map w_got (find_writer i ws)
+                         /\ option_map w_st (find_writer i (upd_writer tm w_close ws)) = option_map w_st (find_writer i ws)).
+    { intros i. destruct (Z.eq_dec i tm) as [->|Hne].
+      - rewrite find_upd_same by apply w_tm_close. destruct (find_writer tm ws); split; reflexivity.
+      - rewrite find_upd_other by (try apply w_tm_close; assumption). split; reflexivity. }
+    split; [|split]; [ intros i | intros i | reflexivity ].
+    + unfold recvd. cbn [s_wr set_rt set_wr]. destruct (Hfw i) as [H1 _].
+      destruct (find_writer i (upd_writer tm w_close ws)), (find_writer i ws); cbn in H1; congruence.
+    + unfold finished. cbn [s_wr set_rt set_wr]. destruct (Hfw i) as [_ H2].
+      destruct (find_writer i (upd_writer tm w_close ws)), (find_writer i ws); cbn in H2; try congruence.
+      inversion H2 as [H3]. now rewrite H3.
+  - destruct rt as [| | |[|t todo]|]; try discriminate. destruct wgR; [|discriminate].
+    destruct wgM; inversion H; subst; [discriminate | tau_wr].
+  - (* LRecv *)
+    destruct (find_writer tm ws) as [w|] eqn:Ef; [|discriminate].
+    destruct (w_st w) eqn:Ew; try discriminate.
+    destruct (msg_eqb m m0) eqn:Eq; [|discriminate]. apply msg_eqb_eq in Eq. subst m0.
+    inversion H; subst; clear H.
+    split; [|split; [|split; [|split]]].
+    + intros i. unfold recvd. cbn [s_wr set_wr]. rewrite (upd_effect tm _ ws w (w_tm_handle _) Ef).
+      destruct (Z.eqb_spec i tm) as [->|Hne]; [rewrite Ef; reflexivity | reflexivity].
+    + intros i. unfold finished. cbn [s_wr set_wr]. rewrite (upd_effect tm _ ws w (w_tm_handle _) Ef).
+      destruct (Z.eqb_spec i tm) as [->|Hne]; [rewrite Ef, Ew; reflexivity | reflexivity].
+    + unfold finished. cbn [s_wr]. rewrite Ef, Ew. reflexivity.
+    + reflexivity.
+    + cbn [s_wr]. apply find_writer_In in Ef as [Ef <-]. now apply in_map.
+  - (* LWriterEof *)
+    destruct (find_writer tm ws) as [w|] eqn:Ef; [|discriminate].
+    destruct (w_st w) eqn:Ew; try discriminate. destruct (w_closed w); [|discriminate].
+    inversion H; subst; clear H.
+    split; [|split]; [ intros i | intros i | reflexivity ].
+    + unfold recvd. cbn [s_wr set_wr]. rewrite (upd_effect tm _ ws w (w_tm_set_st _) Ef).
+      destruct (Z.eqb_spec i tm) as [->|Hne]; [rewrite Ef; reflexivity | reflexivity].
+    + unfold finished. cbn [s_wr set_wr]. rewrite (upd_effect tm _ ws w (w_tm_set_st _) Ef).
+      destruct (Z.eqb_spec i tm) as [->|Hne]; [rewrite Ef, Ew; reflexivity | reflexivity].
+  - (* LFinish *)
+    destruct (find_writer tm ws) as [w|] eqn:Ef; [|discriminate].
+    destruct (w_st w) eqn:Ew; try discriminate.
+    destruct wgR; [inversion H; subst; discriminate|]. inversion H; subst; clear H.
+    split; [|split; [|split; [|split]]].
+    + intros i. unfold recvd. cbn [s_wr set_wr set_wgR]. rewrite (upd_effect tm _ ws w (w_tm_set_st _) Ef).
+      destruct (Z.eqb_spec i tm) as [->|Hne]; [rewrite Ef; reflexivity | reflexivity].
+    + intros i. unfold finished. cbn [s_wr set_wr set_wgR]. rewrite (upd_effect tm _ ws w (w_tm_set_st _) Ef).
+      destruct (Z.eqb_spec i tm) as [->|Hne]; reflexivity.
+    + unfold finished. cbn [s_wr]. rewrite Ef, Ew. reflexivity.
+    + reflexivity.
+    + exists w. cbn [s_wr]. split; assumption.
+  - (* LReturn *)
+    destruct mn; try discriminate. destruct wgM; [|discriminate]. inversion H; subst; clear H.
+    repeat split; reflexivity.
+Qed.
+
+Lemma step_effect : forall cfg s l s', Inv cfg s -> step cfg s l = Some s' -> s_panic s' = None ->
+  effect_of l s s'.
 Proof.
   intros cfg s l s' HI H Hp'. unfold step in H. rewrite (inv_nopanic _ _ HI) in H.
   destruct (s_main s) eqn:Em.
-  { destruct l; try discriminate. inversion H; subst; clear H.
-    split; [|split]; try reflexivity. unfold returned. cbn. now rewrite Em. }
-  all: destruct s as [mn wgM rd sn rt wgR ws pn]; cbn [s_main] in Em; subst mn.
-  all: pose proof (inv_keys _ _ HI) as Hkeys; cbn [s_wr s_rt] in Hkeys.
-  all: destruct l; cbn [step_started] in H; st_cbn; try discriminate.
-  (* the labels that do not touch the writers *)
-  all: try (match type of H with
-            | context [find_writer] => fail 1
-            | context [upd_writer] => fail 1
-            | context [new_writer] => fail 1
-            | _ => idtac
-            end;
-            repeat match type of H with
-                   | context [match ?x with _ => _ end] => destruct x; try discriminate
-                   end;
-            inversion H; subst; clear H; try discriminate;
-            first [ apply tau_of_wr; reflexivity
-                  | repeat split; reflexivity ]).
-  (* LRouterSpawn, twice *)
-  1,7: destruct rt; try discriminate; inversion H; subst; clear H;
-       destruct ws; [|discriminate];
-       (split; [|split]; [ intros i | intros i | reflexivity ]);
-       unfold recvd, finished; cbn [s_wr find_writer];
-       (destruct (find_writer i (map new_writer (c_targets cfg))) as [w|] eqn:E; [|reflexivity]);
-       apply find_writer_In in E as [E _]; apply in_map_iff in E as (t & <- & _); reflexivity.
-  (* LDeliver, twice *)
-  1,6: destruct rt as [| |tm m| |]; try discriminate;
-       (destruct (find_writer tm ws) as [w|] eqn:Ef; [|inversion H; subst; discriminate]);
-       (destruct (w_closed w); [inversion H; subst; discriminate|]);
-       destruct (w_st w) eqn:Ew; try discriminate; inversion H; subst; clear H;
-       (split; [|split]; [ intros i | intros i | reflexivity ]);
-       unfold recvd, finished; cbn [s_wr];
-       rewrite (upd_effect tm _ ws w (w_tm_set_st _) Ef);
-       (destruct (Z.eqb_spec i tm) as [->|Hne]; [rewrite Ef; cbn; now rewrite ?Ew | reflexivity]).
-  (* LRouterClose, twice *)
-  1,5: destruct rt as [| | |todo|]; try discriminate;
-       (destruct (memz tm todo); [|discriminate]); inversion H; subst; clear H;
-       (split; [|split]; [ intros i | intros i | reflexivity ]);
-       unfold recvd, finished; cbn [s_wr];
-       (destruct (find_writer tm ws) as [w|] eqn:Ef;
-        [ rewrite (upd_effect tm _ ws w w_tm_close Ef);
-          destruct (Z.eqb_spec i tm) as [->|Hne]; [rewrite Ef; reflexivity | reflexivity]
-        | destruct (Z.eq_dec i tm) as [->|Hne];
-          [ rewrite find_upd_same by apply w_tm_close; rewrite Ef; reflexivity
-          | rewrite find_upd_other by (try apply w_tm_close; assumption); reflexivity ] ]).
-  (* LRecv, twice *)
-  1,4: (destruct (find_writer tm ws) as [w|] eqn:Ef; [|discriminate]);
-       destruct (w_st w) eqn:Ew; try discriminate;
-       (destruct (msg_eqb m m0) eqn:Eq; [|discriminate]); apply msg_eqb_eq in Eq; subst m0;
-       inversion H; subst; clear H;
-       (split; [|split; [|split; [|split]]]);
-       [ intros i; unfold recvd; cbn [s_wr]; rewrite (upd_effect tm _ ws w (w_tm_handle _) Ef);
-         destruct (Z.eqb_spec i tm) as [->|Hne]; [rewrite Ef; reflexivity | reflexivity]
-       | intros i; unfold finished; cbn [s_wr]; rewrite (upd_effect tm _ ws w (w_tm_handle _) Ef);
-         destruct (Z.eqb_spec i tm) as [->|Hne]; [rewrite Ef, Ew; reflexivity | reflexivity]
-       | unfold finished; cbn [s_wr]; rewrite Ef, Ew; reflexivity
-       | reflexivity
-       | cbn [s_wr]; apply find_writer_In in Ef as [Ef <-]; now apply in_map ].
-  (* LWriterEof, twice *)
-  1,3: (destruct (find_writer tm ws) as [w|] eqn:Ef; [|discriminate]);
-       destruct (w_st w) eqn:Ew; try discriminate; (destruct (w_closed w); [|discriminate]);
-       inversion H; subst; clear H;
-       (split; [|split]; [ intros i | intros i | reflexivity ]);
-       unfold recvd, finished; cbn [s_wr];
-       rewrite (upd_effect tm _ ws w (w_tm_set_st _) Ef);
-       (destruct (Z.eqb_spec i tm) as [->|Hne]; [rewrite Ef; cbn; now rewrite ?Ew | reflexivity]).
-  (* LFinish, twice *)
-  all: (destruct (find_writer tm ws) as [w|] eqn:Ef; [|discriminate]);
-       destruct (w_st w) eqn:Ew; try discriminate;
-       (destruct wgR; [inversion H; subst; discriminate|]); inversion H; subst; clear H;
-       (split; [|split; [|split; [|split]]]);
-       [ intros i; unfold recvd; cbn [s_wr]; rewrite (upd_effect tm _ ws w (w_tm_set_st _) Ef);
-         destruct (Z.eqb_spec i tm) as [->|Hne]; [rewrite Ef; reflexivity | reflexivity]
-       | intros i; unfold finished; cbn [s_wr]; rewrite (upd_effect tm _ ws w (w_tm_set_st _) Ef);
-         destruct (Z.eqb_spec i tm) as [->|Hne]; reflexivity
-       | unfold finished; cbn [s_wr]; rewrite Ef, Ew; reflexivity
-       | reflexivity
-       | exists w; cbn [s_wr]; split; assumption ].
+  - destruct l; try discriminate. inversion H; subst; clear H. cbn [effect_of].
+    split; [|split]; try reflexivity. unfold returned. cbn. now rewrite Em.
+  - now apply (step_effect_started cfg).
+  - now apply (step_effect_started cfg).
 Qed.
 
 (** ** The simulation between system and monitor *)
@@ -167,7 +194,7 @@ Proof.
   inversion Hnd as [|? ? Hn Hr]; subst.
   destruct (Z.eqb_spec t i) as [->|E].
   - f_equal. apply map_ext_in. intros t Ht. rewrite Ho; [reflexivity | now right |]. intros ->. contradiction.
-  - rewrite Ho by (try (now left); assumption). f_equal. apply IH; [assumption | reflexivity |].
+  - rewrite (Ho t) by (try (now left); assumption). f_equal. apply IH; [assumption | reflexivity |].
     intros t' Ht' Hne. apply Ho; [now right | assumption].
 Qed.
 
@@ -203,3 +230,298 @@ Proof.
   - now rewrite S3, Hret.
 Qed.
 
+Lemma targets_of_writer : forall cfg s tm, Inv cfg s -> In tm (map w_tm (s_wr s)) -> In tm (c_targets cfg).
+Proof.
+  intros cfg s tm HI Hin. pose proof (inv_keys _ _ HI) as Hk.
+  destruct (s_rt s); rewrite Hk in Hin; try exact Hin. destruct Hin.
+Qed.
+
+(** one step of the system is matched by the monitor *)
+Lemma sim_step : forall cfg s l s' m, wf_config cfg -> Inv cfg s -> step cfg s l = Some s' -> Sim cfg s m ->
+  exists m', mon_run cfg m (obs l) = Some m' /\ Sim cfg s' m'.
+Proof.
+  intros cfg s l s' m Hwf HI Hs HS.
+  pose proof (inv_step cfg s l s' Hwf HI Hs) as HI'.
+  pose proof (step_effect cfg s l s' HI Hs (inv_nopanic _ _ HI')) as He.
+  destruct l; cbn [obs mon_run effect_of] in *;
+    try (exists m; split; [reflexivity | now apply (sim_tau cfg s s' m HI HI' He)]).
+  - (* LRecv *)
+    destruct He as (Hr & Hf & Hnf & Hret & Hin). destruct HS as [S1 S2 S3].
+    assert (Htm : In tm (c_targets cfg)) by (apply (targets_of_writer cfg s); assumption).
+    assert (Hnr : returned s = false).
+    { unfold returned. destruct (s_main s) eqn:Em; try reflexivity.
+      destruct (router_done_all cfg s Hwf HI (inv_ret _ _ HI Em) tm Htm) as (w & Hw & Hst & _).
+      unfold finished in Hnf. rewrite Hw, Hst in Hnf. discriminate. }
+    unfold mon_step. rewrite S3, Hnr, S2, Hnf, S1. rewrite (rem_find_map (fun t => rest t s) tm _ Htm).
+    pose proof (Hr tm) as Hrt. rewrite Z.eqb_refl in Hrt.
+    rewrite (rest_recv cfg s s' tm _ HI HI' Htm Hrt). rewrite msg_eqb_refl.
+    eexists; split; [reflexivity|]. constructor; cbn [m_rem m_fin m_ret].
+    + apply rem_set_map; [apply Hwf | reflexivity |].
+      intros t Ht Hne. apply (rest_same cfg s s' t HI HI' Ht). rewrite Hr.
+      destruct (Z.eqb_spec t tm); [contradiction | reflexivity].
+    + intros i. now rewrite S2, Hf.
+    + now rewrite Hret.
+  - (* LFinish *)
+    destruct He as (Hr & Hf & Hnf & Hret & (w & Hw & Hst)). destruct HS as [S1 S2 S3].
+    assert (Htm : In tm (c_targets cfg)).
+    { apply (targets_of_writer cfg s); [assumption|]. apply find_writer_In in Hw as [Hw <-]. now apply in_map. }
+    assert (Hnr : returned s = false).
+    { unfold returned. destruct (s_main s) eqn:Em; try reflexivity.
+      destruct (router_done_all cfg s Hwf HI (inv_ret _ _ HI Em) tm Htm) as (v & Hv & Hvst & _).
+      rewrite Hw in Hv. inversion Hv; subst v. congruence. }
+    assert (Hrest : rest tm s = []).
+    { destruct (inv_writers _ _ HI _ _ Hw) as [Hc1 Hc2]. rewrite Hc2 in Hc1 by (now left).
+      assert (Hpe : rt_past_eof (s_rt s) = true) by (destruct (s_rt s); try discriminate; reflexivity).
+      pose proof (inv_rt_sn _ _ HI Hpe) as Hsn.
+      assert (Hse : sn_past_eof (s_sn s) = true) by (destruct (s_sn s); try discriminate; reflexivity).
+      pose proof (inv_sn_rd _ _ HI Hse) as Hrd.
+      unfold rest, inflight, w_hold, rt_hold, sn_hold, future. rewrite Hw, Hst.
+      destruct (s_rt s); try discriminate; destruct (s_sn s); try discriminate; destruct (s_rd s); try discriminate;
+        reflexivity. }
+    unfold mon_step. rewrite S3, Hnr, S2, Hnf, S1. rewrite (rem_find_map (fun t => rest t s) tm _ Htm), Hrest.
+    eexists; split; [reflexivity|]. constructor; cbn [m_rem m_fin m_ret].
+    + apply map_ext_in. intros t Ht. f_equal. symmetry. apply (rest_same cfg s s' t HI HI' Ht (Hr t)).
+    + intros i. cbn [memz]. rewrite Hf, S2. rewrite Z.eqb_sym. destruct (Z.eqb i tm); reflexivity.
+    + now rewrite Hret.
+  - (* LReturn *)
+    destruct He as (Hr & Hf & Hm & Hm' & Hwg). destruct HS as [S1 S2 S3].
+    assert (Hnr : returned s = false) by (unfold returned; now rewrite Hm).
+    assert (Hrt : s_rt s = TDone).
+    { pose proof (inv_wgM _ _ HI) as H0. rewrite Hm in H0. specialize (H0 ltac:(discriminate)).
+      rewrite Hwg in H0. destruct (s_rt s); try discriminate; reflexivity. }
+    assert (Hall : forallb (fun t => memz t (m_fin m)) (c_targets cfg) = true).
+    { apply forallb_forall. intros t Ht. rewrite S2.
+      destruct (router_done_all cfg s Hwf HI Hrt t Ht) as (w & Hw & Hst & _).
+      unfold finished. now rewrite Hw, Hst. }
+    unfold mon_step. rewrite S3, Hnr, Hall.
+    eexists; split; [reflexivity|]. constructor; cbn [m_rem m_fin m_ret].
+    + rewrite S1. apply map_ext_in. intros t Ht. f_equal. symmetry. apply (rest_same cfg s s' t HI HI' Ht (Hr t)).
+    + intros i. now rewrite S2, Hf.
+    + unfold returned. now rewrite Hm'.
+Qed.
+
+Lemma sim_init : forall cfg, wf_config cfg -> Sim cfg (init cfg) (mon_init cfg).
+Proof.
+  intros cfg Hwf. constructor; cbn [mon_init m_rem m_fin m_ret].
+  - reflexivity.
+  - intros i. reflexivity.
+  - reflexivity.
+Qed.
+
+Lemma exec_sim : forall cfg ls s, wf_config cfg -> exec cfg (init cfg) ls s ->
+  exists m, mon_run cfg (mon_init cfg) (obs_trace ls) = Some m /\ Sim cfg s m.
+Proof.
+  intros cfg ls s Hwf H. remember (init cfg) as s0 eqn:E0.
+  induction H as [s0|s0 ls s1 l s2 Hex IH Hs]; subst.
+  - exists (mon_init cfg). split; [reflexivity | now apply sim_init].
+  - destruct (IH eq_refl) as (m & Hm & HS).
+    assert (HI : Inv cfg s1) by (apply reachable_inv; [assumption | now exists ls]).
+    destruct (sim_step cfg s1 l s2 m Hwf HI Hs HS) as (m' & Hm' & HS').
+    exists m'. split; [|assumption].
+    rewrite obs_trace_app, mon_run_app, Hm. unfold obs_trace. cbn [flat_map]. now rewrite app_nil_r.
+Qed.
+
+(** EVERY TRACE OF THE SYSTEM IS ACCEPTED (as a prefix) *)
+Theorem trace_prefix_accepted : forall cfg ls s, wf_config cfg -> exec cfg (init cfg) ls s ->
+  accepts_prefix cfg (obs_trace ls) = true.
+Proof.
+  intros cfg ls s Hwf H. destruct (exec_sim cfg ls s Hwf H) as (m & Hm & _).
+  unfold accepts_prefix. now rewrite Hm.
+Qed.
+
+(** ... and the trace of a complete execution (one after which Main has returned) is accepted as complete *)
+Theorem trace_accepted : forall cfg ls s, wf_config cfg -> exec cfg (init cfg) ls s -> s_main s = MRet ->
+  accepts cfg (obs_trace ls) = true.
+Proof.
+  intros cfg ls s Hwf H Hm. destruct (exec_sim cfg ls s Hwf H) as (m & Hrun & HS).
+  unfold accepts. rewrite Hrun, (sim_ret _ _ _ HS). unfold returned. now rewrite Hm.
+Qed.
+
+(** ** What an accepted history looks like (about the monitor alone) *)
+
+Lemma rem_find_set : forall i k v l,
+  rem_find i (rem_set k v l)
+  = if Z.eqb k i then match rem_find i l with Some _ => Some v | None => None end else rem_find i l.
+Proof.
+  induction l as [|[k' x] r IH]; cbn [rem_set rem_find].
+  - destruct (Z.eqb k i); reflexivity.
+  - destruct (Z.eqb_spec k' k) as [->|E]; cbn [rem_find].
+    + destruct (Z.eqb_spec k i) as [->|E']; [reflexivity|]. reflexivity.
+    + destruct (Z.eqb_spec k' i) as [->|E'].
+      * destruct (Z.eqb_spec k i); [congruence | reflexivity].
+      * exact IH.
+Qed.
+
+Lemma mon_run_after_return : forall cfg m h m', m_ret m = true -> mon_run cfg m h = Some m' -> h = [] /\ m' = m.
+Proof.
+  intros cfg m [|e r] m' Hr H; cbn [mon_run] in H.
+  - inversion H. tauto.
+  - unfold mon_step in H. rewrite Hr in H. discriminate.
+Qed.
+
+Record run_spec (cfg : config) (m : mon) (h : list event) (m' : mon) : Prop := {
+  rs_rem : forall i, rem_find i (m_rem m)
+                     = match rem_find i (m_rem m') with Some y => Some (recvs_of i h ++ y) | None => None end;
+  rs_fin_before : forall i, memz i (m_fin m) = true -> quiet i h /\ memz i (m_fin m') = true;
+  rs_fin_during : forall i, memz i (m_fin m) = false -> memz i (m_fin m') = true ->
+      exists a b, h = a ++ EFinish i :: b /\ no_finish i a /\ quiet i b /\ rem_find i (m_rem m') = Some [];
+  rs_ret : (m_ret m' = false /\ no_return h)
+           \/ (m_ret m' = true /\ exists h0, h = h0 ++ [EReturn] /\ no_return h0
+               /\ forallb (fun t => memz t (m_fin m')) (c_targets cfg) = true);
+  rs_keys : forall e k, In e h -> event_tm e = Some k -> rem_find k (m_rem m) <> None
+}.
+
+Lemma run_spec_nil : forall cfg m, m_ret m = false -> run_spec cfg m [] m.
+Proof.
+  intros cfg m Hr. constructor.
+  - intros i. cbn. destruct (rem_find i (m_rem m)); reflexivity.
+  - intros i Hi. split; [intros e [] | assumption].
+  - intros i H1 H2. congruence.
+  - left. split; [assumption | intros e []].
+  - intros e k [].
+Qed.
+
+Lemma no_return_cons : forall e h, is_return e = false -> no_return h -> no_return (e :: h).
+Proof. intros e h He Hh x [<-|Hx]; auto. Qed.
+
+Lemma quiet_cons : forall i e h, is_finish i e = false -> is_recv i e = false -> quiet i h -> quiet i (e :: h).
+Proof. intros i e h H1 H2 Hh x [<-|Hx]; auto. Qed.
+
+Lemma no_finish_cons : forall i e h, is_finish i e = false -> no_finish i h -> no_finish i (e :: h).
+Proof. intros i e h H1 Hh x [<-|Hx]; auto. Qed.
+
+Lemma mon_run_spec : forall cfg h m m', mon_run cfg m h = Some m' -> m_ret m = false -> run_spec cfg m h m'.
+Proof.
+  intros cfg. induction h as [|e r IH]; intros m m' H Hr; cbn [mon_run] in H.
+  - inversion H; subst. now apply run_spec_nil.
+  - destruct (mon_step cfg m e) as [m1|] eqn:Es; [|discriminate].
+    unfold mon_step in Es. rewrite Hr in Es.
+    destruct e as [k x|k|].
+    + (* ERecv *)
+      destruct (memz k (m_fin m)) eqn:Ek; [discriminate|].
+      destruct (rem_find k (m_rem m)) as [[|y r0]|] eqn:Ef; try discriminate.
+      destruct (msg_eqb x y) eqn:Exy; [|discriminate]. apply msg_eqb_eq in Exy. subst y.
+      inversion Es; subst m1; clear Es.
+      specialize (IH _ _ H Hr). destruct IH as [I1 I2 I3 I4 I5]. cbn [m_rem m_fin m_ret] in *.
+      constructor.
+      * intros i. specialize (I1 i). rewrite rem_find_set in I1. cbn [recvs_of flat_map].
+        destruct (Z.eqb_spec k i) as [->|Hne].
+        -- rewrite Ef in *. destruct (rem_find i (m_rem m')) as [y'|]; [|discriminate].
+           inversion I1; subst. reflexivity.
+        -- exact I1.
+      * intros i Hi. destruct (I2 i Hi) as [Hq Hm]. split; [|assumption].
+        apply quiet_cons; [reflexivity | | assumption]. cbn [is_recv].
+        destruct (Z.eqb_spec k i) as [->|]; [congruence | reflexivity].
+      * intros i H1 H2. destruct (I3 i H1 H2) as (a & b & -> & Ha & Hb & Hrem).
+        exists (ERecv k x :: a), b. repeat split; try assumption. now apply no_finish_cons.
+      * destruct I4 as [[Hf Hn]|(Hf & h0 & -> & Hn & Hall)].
+        -- left. split; [assumption | now apply no_return_cons].
+        -- right. split; [assumption|]. exists (ERecv k x :: h0). repeat split; try assumption.
+           now apply no_return_cons.
+      * intros e k' [<-|He] Hk'.
+        -- cbn in Hk'. inversion Hk'; subst. congruence.
+        -- specialize (I5 e k' He Hk'). rewrite rem_find_set in I5.
+           destruct (Z.eqb k k'); [|assumption]. destruct (rem_find k' (m_rem m)); congruence.
+    + (* EFinish *)
+      destruct (memz k (m_fin m)) eqn:Ek; [discriminate|].
+      destruct (rem_find k (m_rem m)) as [[|y r0]|] eqn:Ef; try discriminate.
+      inversion Es; subst m1; clear Es.
+      specialize (IH _ _ H Hr). destruct IH as [I1 I2 I3 I4 I5]. cbn [m_rem m_fin m_ret memz] in *.
+      constructor.
+      * intros i. exact (I1 i).
+      * intros i Hi. assert (Hne : k <> i) by congruence.
+        destruct (I2 i) as [Hq Hm]; [rewrite Hi; apply orb_true_r|]. split; [|assumption].
+        apply quiet_cons; [|reflexivity | assumption]. cbn [is_finish]. now apply Z.eqb_neq.
+      * intros i H1 H2. destruct (Z.eqb_spec k i) as [->|Hne].
+        -- destruct (I2 i) as [Hq _]; [now rewrite Z.eqb_refl|].
+           exists [], r. repeat split; try assumption; [intros e [] |].
+           specialize (I1 i). rewrite Ef in I1. destruct (rem_find i (m_rem m')) as [y'|]; [|discriminate].
+           inversion I1 as [Hy]. symmetry in Hy. apply app_eq_nil in Hy as [_ ->]. reflexivity.
+        -- destruct (I3 i) as (a & b & -> & Ha & Hb & Hrem); [|assumption|].
+           ++ apply Z.eqb_neq in Hne. rewrite Hne. exact H1.
+           ++ exists (EFinish k :: a), b. repeat split; try assumption.
+              apply no_finish_cons; [|assumption]. cbn [is_finish]. now apply Z.eqb_neq.
+      * destruct I4 as [[Hf Hn]|(Hf & h0 & -> & Hn & Hall)].
+        -- left. split; [assumption | now apply no_return_cons].
+        -- right. split; [assumption|]. exists (EFinish k :: h0). repeat split; try assumption.
+           now apply no_return_cons.
+      * intros e k' [<-|He] Hk'.
+        -- cbn in Hk'. inversion Hk'; subst. congruence.
+        -- exact (I5 e k' He Hk').
+    + (* EReturn *)
+      destruct (forallb (fun t => memz t (m_fin m)) (c_targets cfg)) eqn:Eall; [|discriminate].
+      inversion Es; subst m1; clear Es.
+      destruct (mon_run_after_return cfg _ r m' eq_refl H) as [-> ->]. cbn [m_rem m_fin m_ret].
+      constructor; cbn [m_rem m_fin m_ret].
+      * intros i. cbn. destruct (rem_find i (m_rem m)); reflexivity.
+      * intros i Hi. split; [|assumption]. intros e [<-|[]]. split; reflexivity.
+      * intros i H1 H2. congruence.
+      * right. split; [reflexivity|]. exists []. repeat split; [intros e [] | assumption].
+      * intros e k [<-|[]] Hk. discriminate.
+Qed.
+
+Lemma last_split : forall (a b0 h0 : list event) x y, a ++ x :: b0 = h0 ++ [y] -> x <> y ->
+  exists b, b0 = b ++ [y].
+Proof.
+  intros a b0 h0 x y H Hne. destruct b0 as [|z b0'] using rev_ind.
+  - change (a ++ [x] = h0 ++ [y]) in H. apply app_inj_tail in H as [_ H]. contradiction.
+  - exists b0. replace (a ++ x :: b0 ++ [z]) with ((a ++ x :: b0) ++ [z]) in H
+      by (rewrite <- app_assoc; reflexivity).
+    apply app_inj_tail in H as [_ ->]. reflexivity.
+Qed.
+
+Lemma rem_find_init : forall cfg i, In i (c_targets cfg) ->
+  rem_find i (m_rem (mon_init cfg)) = Some (expected cfg i).
+Proof. intros cfg i Hi. cbn [mon_init m_rem]. now apply (rem_find_map (expected cfg)). Qed.
+
+Lemma rem_find_init_none : forall cfg i, ~ In i (c_targets cfg) -> rem_find i (m_rem (mon_init cfg)) = None.
+Proof. intros cfg i Hi. cbn [mon_init m_rem]. now apply (rem_find_map_none (expected cfg)). Qed.
+
+(** AN ACCEPTED COMPLETE HISTORY SATISFIES THE C10 AND C11 STATEMENTS *)
+Theorem accepted_complete_ok : forall cfg h, accepts cfg h = true -> history_ok cfg h.
+Proof.
+  intros cfg h Hacc. unfold accepts in Hacc.
+  destruct (mon_run cfg (mon_init cfg) h) as [m'|] eqn:Hrun; [|discriminate].
+  destruct (mon_run_spec cfg h _ _ Hrun eq_refl) as [I1 I2 I3 I4 I5].
+  destruct I4 as [[Hf _]|(_ & h0 & Hh & Hn & Hall)]; [congruence|].
+  rewrite forallb_forall in Hall.
+  assert (Hfin : forall i, In i (c_targets cfg) ->
+            exists a b, h = a ++ EFinish i :: b /\ no_finish i a /\ quiet i b /\ rem_find i (m_rem m') = Some []).
+  { intros i Hi. apply I3; [reflexivity | now apply Hall]. }
+  repeat split.
+  - intros i Hi. destruct (Hfin i Hi) as (_ & _ & _ & _ & _ & Hrem).
+    specialize (I1 i). rewrite rem_find_init, Hrem in I1 by assumption.
+    inversion I1 as [H1]. now rewrite app_nil_r.
+  - intros e k He Hk. specialize (I5 e k He Hk).
+    destruct (in_dec Z.eq_dec k (c_targets cfg)) as [Hin|Hnin]; [assumption|].
+    rewrite rem_find_init_none in I5 by assumption. congruence.
+  - exists h0. split; assumption.
+  - intros i Hi. destruct (Hfin i Hi) as (a & b0 & Hab & Ha & Hb & _).
+    destruct (last_split a b0 h0 (EFinish i) EReturn) as [b ->]; [congruence | discriminate|].
+    exists a, b. repeat split; [assumption | assumption | |].
+    + apply Hb. apply in_or_app. now left.
+    + apply Hb. apply in_or_app. now left.
+Qed.
+
+(** the content-only check used for C10 *)
+Lemma recv_ok_sound : forall cfg h, recv_ok cfg h = true ->
+  (forall i, In i (c_targets cfg) -> recvs_of i h = expected cfg i)
+  /\ (forall e k, In e h -> event_tm e = Some k -> In k (c_targets cfg)).
+Proof.
+  intros cfg h H. unfold recv_ok in H. apply andb_true_iff in H as [H1 H2].
+  rewrite forallb_forall in H1, H2. split.
+  - intros i Hi. apply (list_eqb_eq msg_eqb msg_eqb_eq). now apply H1.
+  - intros e k He Hk. specialize (H2 e He). rewrite Hk in H2. now apply memz_In.
+Qed.
+
+Lemma history_ok_recv_ok : forall cfg h, history_ok cfg h -> recv_ok cfg h = true.
+Proof.
+  intros cfg h (H1 & H2 & _). unfold recv_ok. apply andb_true_iff. split; apply forallb_forall.
+  - intros i Hi. apply (list_eqb_eq msg_eqb msg_eqb_eq). now apply H1.
+  - intros e He. destruct (event_tm e) as [k|] eqn:Ek; [|reflexivity]. apply memz_In. now apply (H2 e k).
+Qed.
+
+(** the two together: every complete run of the system produces a history with the C10/C11 shape *)
+Theorem complete_trace_ok : forall cfg ls s, wf_config cfg -> exec cfg (init cfg) ls s -> s_main s = MRet ->
+  history_ok cfg (obs_trace ls).
+Proof. intros cfg ls s Hwf H Hm. apply accepted_complete_ok. now apply (trace_accepted cfg ls s). Qed.
